@@ -577,7 +577,11 @@ pub fn run(ctx: &mut Ctx) {
     // same programs with the model; here they only must not crash)
     ctx.cases("wide_and_deep", 77, |ctx, _, idx| {
         if let Some(p) = crate::props::c06::wide_program(idx) {
-            check_case(ctx, &render_plain(&p), b"", "wide_and_deep");
+            // (a tree the renderer cannot spell is the generator's business, not a verdict)
+            match crate::render::render(&p, &crate::render::Spelling::canonical(), &mut crate::rng::Rng::new(idx)) {
+                Ok(r) => check_case(ctx, &r.text, b"", "wide_and_deep"),
+                Err(_) => ctx.count("generator_inexpressible"),
+            }
         }
     });
     ctx.cases("long_text_templates", TEMPLATES.len() as u64 * 48, |ctx, rng, idx| {
